@@ -267,7 +267,8 @@ def long(case, ctx):
 @st.composite
 def giant_case(draw, tier="quick"):
     # four cases in five above 2^26 elements (1 GiB of complex128 for the matrix alone)
-    K = int(2 ** (draw(st.floats(26.0, 27.6)) if draw(st.integers(0, 4)) else draw(st.floats(24.0, 26.0))))
+    # (a kernel above a size threshold is above every lower threshold too: most cases sit at the top of the range)
+    K = int(2 ** (draw(st.floats(27.0, 27.6)) if draw(st.integers(0, 4)) else draw(st.floats(24.0, 27.0))))
     os_ = draw(st.sampled_from([1, 1, 2, 3]))
     m = int(np.exp(draw(st.floats(np.log(60.0), np.log(float(min(int(np.sqrt(K)), 12000)))))))
     Nr = max(int(np.ceil(m / os_)), K // m // os_ + draw(st.integers(0, 2))) * os_
